@@ -2638,7 +2638,9 @@ def distributed_shampoo(
     new_statistics = [[]] * len(state.statistics)
     w1 = beta2
     w2 = jnp.where(beta2 == 1.0, beta2, 1.0 - beta2)
-    new_avg_grad = optax.MaskedNode()
+    # Parameters that skip preconditioning keep the avg_grad leaf that init
+    # created for them, so the state tree structure does not change.
+    new_avg_grad = state.avg_grad
     if not _skip_preconditioning(param):
 
       if frequent_directions and average_grad:
